@@ -55,6 +55,10 @@ def constraint_value(desc, c, assignment):
     if c["kind"] in ("expr", "pyfunc"):
         env = {n: assignment[n] for n in c["scope"]}
         return ref_eval(c["expr"], env)
+    if c["kind"] == "external":
+        env = {n: assignment[n] for n in c["scope"]}
+        env.update(c.get("fixed") or {})
+        return c["helper"][0] * ref_eval(c["expr"], env) + c["helper"][1]
     raise ValueError(c["kind"])
 
 
